@@ -1646,3 +1646,337 @@ M("C01", "decoder-skips-high-disorder-candidates", CONT,
             set_unitary_alignements.append(unitary_alignment)
         return Alignment(""", "R-C01-4", "singleton unitary alignments dropped for 5+ annotators: units missing from the partition")
 VARIANTS[:] = [v for v in VARIANTS if v is not None]
+
+# =============================================================================================
+# refactored-AND-broken variants: the code is restructured the way the benign corpus (selfval/benign_patches) restructures it, and one
+# slot is wrong.  They pin down that the generalised recognisers did not become permissive.
+# =============================================================================================
+M("C03", "rf/pair-kernel-inverted-test-with-or", DIS,
+  """                    if unitary_alignment[i, 3] == -1 or unitary_alignment[j, 3] == -1:
+                        res[unitary_alignment_i] += delta_empty
+                    else:
+                        res[unitary_alignment_i] += d_mat(unitary_alignment[i], unitary_alignment[j])""",
+  """                    unit_i = unitary_alignment[i]
+                    unit_j = unitary_alignment[j]
+                    if unit_i[3] != -1 or unit_j[3] != -1:
+                        res[unitary_alignment_i] += d_mat(unit_i, unit_j)
+                    else:
+                        res[unitary_alignment_i] += delta_empty""", "R-C03-1")
+M("C03", "rf/pair-kernel-guard-continue-skips-empty-pairs", DIS,
+  """                    if unitary_alignment[i, 3] == -1 or unitary_alignment[j, 3] == -1:
+                        res[unitary_alignment_i] += delta_empty
+                    else:
+                        res[unitary_alignment_i] += d_mat(unitary_alignment[i], unitary_alignment[j])""",
+  """                    if unitary_alignment[i, 3] == -1 and unitary_alignment[j, 3] == -1:
+                        continue
+                    if unitary_alignment[i, 3] == -1 or unitary_alignment[j, 3] == -1:
+                        res[unitary_alignment_i] += delta_empty
+                        continue
+                    res[unitary_alignment_i] += d_mat(unitary_alignment[i], unitary_alignment[j])""", "R-C03-1")
+M("C03", "rf/sentinel-row-hoisted-wrong-field", DIS,
+  """                    alignment_array[i, annotator_i] = np.array([-1, -1, -1, -1], dtype=np.float32)""",
+  """                    empty_row = np.array([-1, -1, -1, 0], dtype=np.float32)
+                    alignment_array[i, annotator_i] = empty_row""", "R-C03-0")
+M("C02", "rf/guard-clause-filter-halved-threshold", DIS,
+  """            if disorder <= criterium:
+                disorders[i_chosen] = disorder
+                alignments[i_chosen] = unitary_alignment
+                i_chosen += 1
+                if i_chosen == chunk_size:
+                    # Increasing the size of the result array if full
+                    # (security, doesn't happen often since chunk size
+                    # is already decently high by default)
+                    add_size = chunk_size // 2
+                    disorders = extend_right_disorders(disorders, add_size)
+                    alignments = extend_right_alignments(alignments, add_size)
+                    chunk_size += add_size""",
+  """            cut = criterium / 2
+            if disorder > cut:
+                continue
+            disorders[i_chosen] = disorder
+            alignments[i_chosen] = unitary_alignment
+            i_chosen += 1
+            if i_chosen == chunk_size:
+                add_size = chunk_size // 2
+                disorders = extend_right_disorders(disorders, add_size)
+                alignments = extend_right_alignments(alignments, add_size)
+                chunk_size += add_size""", "R-C02-2")
+M("C07", "rf/length-mode-capacity-test-one-late", DIS,
+  """                if i_chosen == chunk_size:
+                    # Increasing the size of the result array if full
+                    # (security, doesn't happen often since chunk size
+                    # is already decently high by default)
+                    add_size = chunk_size // 2
+                    disorders = extend_right_disorders(disorders, add_size)
+                    alignments = extend_right_alignments(alignments, add_size)
+                    chunk_size += add_size""",
+  """                capacity = len(disorders)
+                if i_chosen > capacity:
+                    add_size = capacity // 2
+                    disorders = extend_right_disorders(disorders, add_size)
+                    alignments = extend_right_alignments(alignments, add_size)""", "R-C07-5")
+M("C07", "rf/final-cut-through-local-keeps-all-empty", DIS,
+  """        disorders, alignments = disorders[:i_chosen - 1], alignments[:i_chosen - 1]  # removing empty unitary alignment""",
+  """        nb_kept = i_chosen
+        disorders = disorders[:nb_kept]
+        alignments = alignments[:nb_kept]""", "R-C07-")
+M("C07", "rf/extend-copies-one-cell-short", NUM,
+  """    new_array = np.empty(len(arr) + n, dtype=np.float32)
+    new_array[:len(arr)] = arr""",
+  """    old_size = len(arr)
+    new_array = np.empty(old_size + n, dtype=np.float32)
+    new_array[:old_size - 1] = arr[:old_size - 1]""", "R-C07-6")
+M("C01", "rf/matrix-empty-row-slice-only", DIS,
+  """                for annot_b in range(nb_annot_b + 1):
+                    matrix[nb_annot_a, annot_b] = delta_empty
+                for annot_a in range(nb_annot_a + 1):
+                    matrix[annot_a, nb_annot_b] = delta_empty""",
+  """                matrix[nb_annot_a, :] = delta_empty""", "R-C01-")
+M("C01", "rf/build-A-range-loop-null-test-off-by-one", NUM,
+  """    for p_id, unit_ids_tuple in enumerate(possible_unitary_alignments):
+        annotator_units_start = 0
+        for annotator_id, unit_id in enumerate(unit_ids_tuple):
+            if unit_id != sizes[annotator_id]:  # Non-null unit
+                A[annotator_units_start + unit_id, p_id] = 1
+            annotator_units_start += sizes[annotator_id]""",
+  """    for p_id in range(n):
+        unit_ids_tuple = possible_unitary_alignments[p_id]
+        annotator_units_start = 0
+        for annotator_id, unit_id in enumerate(unit_ids_tuple):
+            nb_annotator_units = sizes[annotator_id]
+            if unit_id < nb_annotator_units - 1:  # Non-null unit
+                A[annotator_units_start + unit_id, p_id] = 1
+            annotator_units_start += nb_annotator_units""", "R-C01-2")
+M("C07", "rf/odometer-while-form-stops-one-digit-early", NUM,
+  """        for i in range(nb_annotators):
+            current[i] += 1
+            if current[i] < sizes[i]:
+                break
+            current[i] = 0
+        else:
+            return""",
+  """        position = 0
+        while position < nb_annotators - 1:
+            current[position] += 1
+            if current[position] < sizes[position]:
+                break
+            current[position] = 0
+            position += 1
+        if position == nb_annotators - 1:
+            return""", "R-C07-8")
+M("C01", "rf/decode-zip-null-slot-takes-first-unit", CONT,
+  """        for alignment_id, alignment in enumerate(chosen_alignments):
+            u_align_tuple = []
+            for annotator_id, unit_id in enumerate(alignment):
+                annotator, units = self._annotations.peekitem(annotator_id)
+                try:
+                    unit = units[unit_id]
+                    u_align_tuple.append((annotator, unit))
+                except IndexError:  # it's a "null unit"
+                    u_align_tuple.append((annotator, None))
+            unitary_alignment = UnitaryAlignment(list(u_align_tuple))
+            unitary_alignment.disorder = alignments_disorders[alignment_id]
+            set_unitary_alignements.append(unitary_alignment)
+        return Alignment(""",
+  """        for alignment, disorder in zip(chosen_alignments, alignments_disorders):
+            u_align_tuple = []
+            for annotator_id, unit_id in enumerate(alignment):
+                annotator, units = self._annotations.peekitem(annotator_id)
+                if unit_id > len(units):
+                    unit = None
+                else:
+                    unit = units[unit_id]
+                u_align_tuple.append((annotator, unit))
+            unitary_alignment = UnitaryAlignment(list(u_align_tuple))
+            unitary_alignment.disorder = disorder
+            set_unitary_alignements.append(unitary_alignment)
+        return Alignment(""", "R-C01-4")
+M("C03", "rf/decode-zip-disorder-of-other-array", CONT,
+  """        for alignment_id, alignment in enumerate(chosen_alignments):
+            u_align_tuple = []
+            for annotator_id, unit_id in enumerate(alignment):
+                annotator, units = self._annotations.peekitem(annotator_id)
+                try:
+                    unit = units[unit_id]
+                    u_align_tuple.append((annotator, unit))
+                except IndexError:  # it's a "null unit"
+                    u_align_tuple.append((annotator, None))
+            unitary_alignment = UnitaryAlignment(list(u_align_tuple))
+            unitary_alignment.disorder = alignments_disorders[alignment_id]
+            set_unitary_alignements.append(unitary_alignment)
+        return Alignment(""",
+  """        for alignment, disorder in zip(chosen_alignments, disorders):
+            u_align_tuple = []
+            for annotator_id, unit_id in enumerate(alignment):
+                annotator, units = self._annotations.peekitem(annotator_id)
+                try:
+                    unit = units[unit_id]
+                    u_align_tuple.append((annotator, unit))
+                except IndexError:  # it's a "null unit"
+                    u_align_tuple.append((annotator, None))
+            unitary_alignment = UnitaryAlignment(list(u_align_tuple))
+            unitary_alignment.disorder = disorder
+            set_unitary_alignements.append(unitary_alignment)
+        return Alignment(""", "R-C03-4")
+M("C13", "rf/reset-bounds-named-generator-last-of-set", CONT,
+  """        self.bound_sup = max((unit.segment.end for annotations in self._annotations.values() for unit in annotations),
+                             default=0.0)""",
+  """        all_units = self._annotations.values()
+        last_ends = (annotations[-1].segment.end for annotations in all_units if annotations)
+        self.bound_sup = max(last_ends, default=0.0)""", "R-C13-7")
+M("C13", "rf/add-annotator-early-return-inverted", CONT,
+  """        if annotator not in self._annotations:
+            self._annotations[annotator] = SortedSet()
+
+    def add(self""",
+  """        if annotator not in self._annotations:
+            return
+        self._annotations[annotator] = SortedSet()
+
+    def add(self""", "R-C13-3")
+M("C13", "rf/copy-via-copy-flush-forgets-categories", CONT,
+  """        continuum = Continuum(self.uri)
+        continuum._annotations = deepcopy(self._annotations)
+        continuum._categories = SortedSet(self._categories)
+        continuum.bound_inf, continuum.bound_sup = self.bound_inf, self.bound_sup
+        continuum.best_window_size = self.best_window_size
+        return continuum""",
+  """        continuum = self.copy_flush()
+        continuum._annotations = deepcopy(self._annotations)
+        return continuum""", "R-C13-4")
+M("C13", "rf/eq-merged-or-drops-unit-comparison", CONT,
+  """            if my_annotator != other_annotator:
+                return False
+            elif my_unit != other_unit:
+                return False""",
+  """            if my_annotator != other_annotator or my_unit.segment != other_unit.segment:
+                return False""", "R-C13-6")
+M("C18", "rf/handler-raise-first-polarity-inverted", CONT,
+  """                except ValueError as e:
+                    if discard_invalid_rows:
+                        print(f"Discarded invalid segment : {str(e)}")
+                    else:
+                        raise e""",
+  """                except ValueError as err:
+                    if discard_invalid_rows:
+                        raise err
+                    print("Discarded invalid segment : {}".format(str(err)))""", "R-C18-3")
+M("C18", "rf/single-add-call-label-choice-swapped", CONT,
+  """                if use_tier_as_annotation:
+                    self.add(annotator, Segment(start, end), tier_name)
+                else:
+                    self.add(annotator, Segment(start, end), value)""",
+  """                annotation = value if use_tier_as_annotation else tier_name
+                self.add(annotator, Segment(start, end), annotation)""", "R-C18-4")
+M("C18", "rf/writer-row-local-swaps-start-end", CONT,
+  """                writer.writerow([annotator, unit.annotation,
+                                 unit.segment.start, unit.segment.end])""",
+  """                segment = unit.segment
+                row = [annotator, unit.annotation, segment.end, segment.start]
+                writer.writerow(row)""", "R-C18-1")
+M("C19", "rf/false-pos-half-duration-not-absolute", CST,
+  """                duration = abs(np.random.normal(avg_dur, var_dur))
+                continuum.add(annotator,
+                              Segment(center - duration / 2, center + duration / 2),
+                              annotation=category)""",
+  """                half_duration = np.random.normal(avg_dur, var_dur) / 2
+                continuum.add(annotator,
+                              Segment(center - half_duration, center + half_duration),
+                              annotation=category)""", "R-C19-2")
+M("C19", "rf/shuffle-table-runs-split-unconditionally", CST,
+  """        if shift:
+            self.shift_shuffle(continuum)
+        if false_pos:
+            self.false_pos_shuffle(continuum)
+        if false_neg:
+            self.false_neg_shuffle(continuum)
+        if cat_shuffle:
+            self.category_shuffle(continuum)
+        if split:
+            self.splits_shuffle(continuum)""",
+  """        shuffles = ((shift, self.shift_shuffle),
+                    (false_pos, self.false_pos_shuffle),
+                    (false_neg, self.false_neg_shuffle),
+                    (cat_shuffle, self.category_shuffle),
+                    (True, self.splits_shuffle))
+        for enabled, shuffle in shuffles:
+            if enabled:
+                shuffle(continuum)""", "R-C19-4")
+M("C17", "rf/alignment-pairs-comprehension-keeps-empty-slots", ALI,
+  """        alignment_tuples = list()
+        for unitary_alignment in self.unitary_alignments:
+            for (annotator, unit) in unitary_alignment.n_tuple:
+                if unit is None:
+                    continue
+                alignment_tuples.append((annotator, unit))""",
+  """        alignment_tuples = [(annotator, unit)
+                            for unitary_alignment in self.unitary_alignments
+                            for (annotator, unit) in unitary_alignment.n_tuple]""", "R-C17-1")
+M("C12", "rf/pair-loops-local-tuple-includes-self-pairs", ALI,
+  """            for i, (_, unit1) in enumerate(unitary_alignment.n_tuple):
+                for _, unit2 in unitary_alignment.n_tuple[i + 1:]:""",
+  """            n_tuple = unitary_alignment.n_tuple
+            for i, (_, unit1) in enumerate(n_tuple):
+                for _, unit2 in n_tuple[i:]:""", "R-C12-1")
+M("C10", "rf/window-keyword-args-constant-size", CONT,
+  """            window, x_limit = copy.get_first_window(dissimilarity, window_size)""",
+  """            window, x_limit = copy.get_first_window(dissimilarity, w=1)""", "R-C10-2")
+M("C10", "rf/right-bound-helper-sorts-by-left-end", ALI,
+  """        leftmost_first = sorted(self.unitary_alignments, key=lambda unit_align: unit_align.bounds[1])""",
+  """        leftmost_first = sorted(self.unitary_alignments, key=self._left_bound)""", "R-C10-1",
+  note="helper added by the second edit")
+VARIANTS[-1]["edits"] = [(ALI, VARIANTS[-1].pop("old"), VARIANTS[-1].pop("new")),
+                         (ALI, "    def take_until_limit(self, x_limit):", "    @staticmethod\n    def _left_bound(unitary_alignment):\n        return unitary_alignment.bounds[0]\n\n    def take_until_limit(self, x_limit):")]
+VARIANTS[-1].pop("file")
+M("C09", "rf/reach-threshold-local-squares-delta", CONT,
+  """                if dissimilarity.d(rightmost_unit, unit) > dissimilarity.delta_empty * self.num_annotators:""",
+  """                max_reach = dissimilarity.delta_empty * dissimilarity.delta_empty * self.num_annotators
+                if dissimilarity.d(rightmost_unit, unit) > max_reach:""", "R-C09-2")
+M("C03", "rf/nb-units-generator-tests-annotator-not-unit", ALI,
+  "        return sum(1 for _ in filter((lambda annot_unit: annot_unit[1] is not None), self._n_tuple))",
+  "        return sum(1 for annot_unit in self._n_tuple if annot_unit[0] is not None)", "R-SUP")
+M("C04", "rf/lambda-matrix-chained-store-not-mirrored", DIS,
+  """                matrix[i, j] = dist_cat
+                matrix[j, i] = dist_cat""",
+  """                matrix[i, j] = matrix[j, j] = dist_cat""", "R-C04-3")
+M("C06", "rf/batched-chance-disorders-by-core-count", CONT,
+  """            expected_disorder = float(np.mean(np.array([job_res.result() for job_res in chance_disorders_jobs])))
+        if expected_disorder == 0:
+            return 0
+        return 1 - observed_disorder / expected_disorder
+
+    def gamma_k""",
+  """            n_batches = os.cpu_count() or 1
+            values = [job_res.result() for job_res in chance_disorders_jobs]
+            partial = [np.float32(sum(values[b::n_batches])) for b in range(n_batches)]
+            expected_disorder = float(sum(partial) / len(values))
+        if expected_disorder == 0:
+            return 0
+        return 1 - observed_disorder / expected_disorder
+
+    def gamma_k""", "R-C06-8")
+M("C16", "rf/shift-helper-wraps-on-end-instead-of-start", SAM,
+  """                    if unit.segment.start + pivot > bound_sup:
+                        new_continuum.add(new_annotator,
+                                          Segment(unit.segment.start + pivot + bound_inf - bound_sup,
+                                                  unit.segment.end + pivot + bound_inf - bound_sup),
+                                          unit.annotation)
+                    else:
+                        new_continuum.add(new_annotator,
+                                          Segment(unit.segment.start + pivot,
+                                                  unit.segment.end + pivot),
+                                          unit.annotation)""",
+  """                    segment = unit.segment
+                    if segment.end + pivot > bound_sup:
+                        shifted = Segment(segment.start + pivot + bound_inf - bound_sup,
+                                          segment.end + pivot + bound_inf - bound_sup)
+                    else:
+                        shifted = Segment(segment.start + pivot, segment.end + pivot)
+                    new_continuum.add(new_annotator, shifted, unit.annotation)""", "R-C16-2")
+M("C16", "rf/pivot-value-drawn-once-int-mode-not-truncated", SAM,
+  """        if self._pivot_type == 'int_pivot':
+            return int(np.random.uniform(segment.start, segment.end))
+        else:
+            return np.random.uniform(segment.start, segment.end)""",
+  """        value = np.random.uniform(segment.start, segment.end)
+        return value if self._pivot_type == 'int_pivot' else int(value)""", "R-C16-3")
